@@ -153,7 +153,7 @@ func runTxt(c *c14case) []*c14event {
 				return exprParsed(y), nil
 			}},
 			{"Parse.filter", "$[?(" + text + ")]", func(s string) (*parsed, error) {
-				y, err := jp.Parse([]byte(s))
+				y, err := parseOwned(s)
 				if err != nil {
 					return nil, err
 				}
@@ -385,7 +385,7 @@ func runC14(c *c14case) []*c14event {
 			ev.Eos = distinctGets(x, doc)
 			if perr != "" {
 				ev.Perr, ev.Pmsg = 2, perr
-			} else if y, err := jp.ParseString(s1); err != nil {
+			} else if y, err := parseOwned(s1); err != nil {
 				ev.Perr, ev.Pmsg = 1, clip(err.Error())
 			} else {
 				s2, _ := safeStr(func() string {
@@ -463,7 +463,7 @@ func runC14(c *c14case) []*c14event {
 			}
 		default:
 			var y jp.Expr
-			if y, err = jp.ParseString(s1); err == nil {
+			if y, err = parseOwned(s1); err == nil {
 				s2 = y.String()
 				re = func() bool { return len(y.Get([]any{elem})) == 1 }
 				reShape = func() any {
@@ -860,4 +860,16 @@ func genC14(tier string, n int, seed int64) {
 	}
 	_ = strings.Join
 	wr.Flush()
+}
+
+// parseOwned parses a printed text with jp.Parse from a buffer the caller owns and overwrites the buffer afterwards, as a caller
+// that reads path after path into one buffer does: the parsed expression must not depend on the text it was parsed from
+// (jp.ParseString is jp.Parse on a private copy, so nothing is lost by routing the re-parse through here).
+func parseOwned(s string) (jp.Expr, error) {
+	buf := []byte(s)
+	y, err := jp.Parse(buf)
+	for i := range buf {
+		buf[i] = '~'
+	}
+	return y, err
 }
